@@ -28,7 +28,7 @@ theorem C07_rolling_meanvar_1d (e : Expr F) :
 theorem C07_rolling_var_forms (xs : List F) : Spec.varDev xs = Spec.var xs := Spec.varDev_eq_var xs
 
 /-- 2-D, `k` columns: per-column statistics, whatever the history — provided the data has at least
-one non-NaN entry.  (Otherwise the accumulator is still in its fresh *scalar* state: finding F24,
+one non-NaN entry.  (Otherwise the accumulator is still in its fresh *scalar* state: finding F26,
 `C07_rolling_meanvar_2d_blank_witness`.) -/
 theorem C07_rolling_meanvar_2d (k : Nat) (e : Expr (Row k))
     (h : blank k (e.data.map (·.val)) = false) :
@@ -46,7 +46,7 @@ theorem C07_rolling_meanvar_2d (k : Nat) (e : Expr (Row k))
   refine ⟨?_, ?_, ?_, ?_⟩ <;> apply List.map_congr_left <;> intro j _ <;>
     simp only [Function.comp, Col.total_ofList] <;> rw [Col.ofList_spec]
 
-/-- F24 (open finding, low severity): data with no non-NaN entry leaves the accumulator in the
+/-- F26 (open finding, low severity): data with no non-NaN entry leaves the accumulator in the
 fresh scalar state, whereas the documented per-column result is `k` NaNs with count 0. -/
 theorem C07_rolling_meanvar_2d_blank_witness :
     let rows : List (Row 2) := [⟨[none, none], rfl⟩]
